@@ -7,6 +7,11 @@
    wire <version> <code> <reason> <hdrs> <framing>   the grammar of hfeed_correct:
        hdrs = . | name=value,...   framing = N | F:<body> | C:<size=data,...|.>:<last>
        answer: <wf_wire> <render> <interp as msg>
+   sfeed <ctr> <n> <n table entries nonce:aad:ct:pt> <read> ...   the secure protocol (Model/HttpSecure.v):
+       reads of ciphertext in order on one object; open = the finite table
+       answer: <dead|live:buffered:ctr> <result> # <messages delivered by read 1>,<by read 2>,...
+   scuts1|scuts2 <ctr> <n> <entries> <ciphertext>   all single (and double) cuts of the ciphertext:
+       answer: <bad> <total> <dead|live..> <result of the one-piece read>
    result: <state> <digest-of-parser-state> <n> msg...   msg = K:code:version:reason:headers:body *)
 open Drv
 let kind_str = function Http.KHttp -> "H" | Http.KEvent -> "E"
@@ -55,7 +60,49 @@ let framing_of t = match Stdlib.String.split_on_char ':' t with
   | ["F"; b] -> HttpWire.FFixed (bytes_of_hex b)
   | ["C"; cs; last] -> HttpWire.FChunked (pairs cs, bytes_of_hex last)
   | _ -> failwith "framing"
+let table entries =
+  let tbl = Hashtbl.create 16 in
+  Stdlib.List.iter (fun e -> match Stdlib.String.split_on_char ':' e with
+      | [no; aad; ct; pt] -> Hashtbl.replace tbl (no ^ ":" ^ aad ^ ":" ^ ct) (bytes_of_hex pt)
+      | _ -> failwith "entry") entries;
+  fun no aad ct -> Hashtbl.find_opt tbl (hex_of_bytes no ^ ":" ^ hex_of_bytes aad ^ ":" ^ hex_of_bytes ct)
+let rec split_n n l = if n = 0 then ([], l) else match l with [] -> failwith "split_n" | x :: r -> let (a, b) = split_n (n - 1) r in (x :: a, b)
+let rstate_str = function
+  | Frame.Dead -> "dead"
+  | Frame.Live (b, c) -> Printf.sprintf "live:%d:%s" (Stdlib.List.length b) (dec_of_n c)
+let sres_str ((r, h), ms) = rstate_str r ^ " " ^ res_str (h, ms)
+let scuts two ctr n rest =
+  let (entries, tl) = split_n (int_of_string n) rest in
+  let opn = table entries in
+  let s = bytes_of_hex (match tl with [h] -> h | _ -> failwith "scuts") in
+  let len = Stdlib.List.length s in
+  let s0 = HttpSecure.sinit (n_of_dec ctr) in
+  let whole = HttpSecure.secure_feeds opn s0 [s] in
+  let bad = ref 0 and total = ref 0 in
+  for i = 1 to len - 1 do
+    let a = take i s and r = drop i s in
+    incr total;
+    if HttpSecure.secure_feeds opn s0 [a; r] <> whole then incr bad;
+    if two then
+      for j = i + 1 to len - 1 do
+        let b = take (j - i) r and c = drop (j - i) r in
+        incr total;
+        if HttpSecure.secure_feeds opn s0 [a; b; c] <> whole then incr bad
+      done
+  done;
+  Printf.sprintf "%d %d %s" !bad !total (sres_str whole)
 let handle = function
+  | "sfeed" :: ctr :: n :: rest ->
+      let (entries, segs) = split_n (int_of_string n) rest in
+      let opn = table entries in
+      let st = ref (HttpSecure.sinit (n_of_dec ctr)) in
+      let all = ref [] and counts = ref [] in
+      Stdlib.List.iter (fun seg ->
+          let (s', ms) = HttpSecure.secure_feed opn !st (bytes_of_hex seg) in
+          st := s'; all := !all @ ms; counts := Stdlib.List.length ms :: !counts) segs;
+      sres_str (!st, !all) ^ " # " ^ Stdlib.String.concat "," (Stdlib.List.rev_map string_of_int !counts)
+  | "scuts1" :: ctr :: n :: rest -> scuts false ctr n rest
+  | "scuts2" :: ctr :: n :: rest -> scuts true ctr n rest
   | ["wire"; v; c; r; hs; fr] ->
       let w = { HttpWire.w_version = bytes_of_hex v; w_codeb = bytes_of_hex c; w_reason = bytes_of_hex r;
                 w_hdrs = pairs hs; w_fr = framing_of fr } in
